@@ -119,4 +119,17 @@ Section Trace.
   Definition warns_of (p : string * item num) : list string := match snd p with IWarn => [fst p] | _ => [] end.
   (* a line no parser claims, whatever the dictionary: not blank, recognised by nobody *)
   Definition unrecognised (cts : list ctype) (l : string) : Prop := forall ps, parse_line cts ps l = Ok IWarn.
+  (* the parser each built-in tag selects *)
+  Definition builtin_parser (ps : params num) (t : string) : option (list string -> result (item num)) :=
+    if String.eqb t (vtag KR2) then Some (parse_vertex num parse parse_id wrap KR2)
+    else if String.eqb t (vtag KR3) then Some (parse_vertex num parse parse_id wrap KR3)
+    else if String.eqb t (vtag KSE2) then Some (parse_vertex num parse parse_id wrap KSE2)
+    else if String.eqb t (vtag KSE3) then Some (parse_vertex num parse parse_id wrap KSE3)
+    else if String.eqb t tag_odo_se2 then Some (parse_odo_se2 num parse parse_id wrap)
+    else if String.eqb t tag_odo_se3 then Some (parse_odo_se3 num parse parse_id normq)
+    else if String.eqb t tag_lmk_se2 then Some (parse_lmk_se2 num parse parse_id zero)
+    else if String.eqb t tag_lmk_se3 then Some (parse_lmk_se3 num parse parse_id ps)
+    else if String.eqb t (ptag PSE2) then Some (parse_param num parse parse_id wrap PSE2)
+    else if String.eqb t (ptag PSE3) then Some (parse_param num parse parse_id wrap PSE3)
+    else None.
 End Trace.
